@@ -13,11 +13,18 @@ use serde::{Deserialize, Serialize};
 use std::cell::RefCell;
 use std::rc::Rc;
 
-/// custom instruction pushed by the harness extension
-#[derive(Clone, Debug, PartialEq, Serialize, Deserialize)]
+/// custom instruction pushed by the harness extension.  Two instructions are *equal* when their
+/// tags are (the register is a payload detail): the generator repeats a tag for adjacent leaves, so
+/// that a stack which merges or drops "equal" extension instructions is observable.
+#[derive(Clone, Debug, Serialize, Deserialize)]
 pub struct HInstr {
     pub tag: u32,
     pub reg: u64,
+}
+impl PartialEq for HInstr {
+    fn eq(&self, other: &Self) -> bool {
+        self.tag == other.tag
+    }
 }
 impl SemanticContextInstruction for HInstr {}
 
